@@ -10,6 +10,14 @@ Monitors
                 and the library's own inv / eig / trig follow-ups succeed.
   rescaling     (W) metamorphic: per-unit non-zero rescaling (negative included)
                 of homogeneous input coordinates changes no geometric output.
+                Workloads `rescaling` (points, segments, tangent vectors,
+                polygons), `rescaling-ideal` (rays, geodesics, horospheres) and
+                `rescaling-objects` (per-*point* factors inside every other
+                object built from points / ideal points / normals: horosphere
+                intersections and arcs, boundary arcs, geodesics, subspaces,
+                hyperplanes and dual points, tangent vectors, projective pairs,
+                polygons, subspace intersections, chart normals), judged
+                against numpy references in ref/rescale.py.
   docs          (W) README / docstring programs run.
 """
 import math
@@ -18,12 +26,15 @@ import numpy as np
 from ..run import Workload
 from .. import attach
 from ..ref import hyp as rh
+from ..ref import rescale as rr
 
 ID = "C12"
 RULE = ("packaging cases = (entry point, value, packaging) with packagings "
         "{python scalar, numpy scalar, 0-d array, nested list, ndarray}; "
         "rescaling cases = (operation, dimension, composite shape, sign pattern "
-        "of per-unit factors in +-[0.1,10]); non-trivial = the variant differs in "
+        "of per-unit factors in +-[0.1,10]; for objects built from m points the sign "
+        "vector of the m per-point factors runs through all 2^m patterns with the case "
+        "index); non-trivial = the variant differs in "
         "type or in representative from the reference variant; distinct = "
         "distinct (entry point/operation, packaging or sign pattern, dimension, "
         "shape) signatures")
@@ -32,6 +43,11 @@ ASSUMPTIONS = [
     "explored (stated in DESIGN.md section 7)",
     "the order of a segment's two ideal endpoints is not geometric (follows the "
     "sign of the representatives); compared as unordered pairs",
+    "a hyperplane normal / chart normal n is homogeneous input (n and lambda n are the "
+    "same hyperplane): hyperplane_coordinate_transform and find_definite_isometry are "
+    "judged as projective maps / frames up to one scalar",
+    "a tangent vector is rescaled jointly with its basepoint (the pair is one unit)",
+    "ConvexPolygon documents its vertex coordinates as preferred lifts: not rescaled",
 ]
 ANCHORS = [("geometry_tools/utils/types.py", "is_linalg_type"),
            ("geometry_tools/utils/types.py", "inexact_type"),
@@ -47,7 +63,18 @@ ANCHORS = [("geometry_tools/utils/types.py", "is_linalg_type"),
            ("geometry_tools/hyperbolic.py", "IdealPoint.from_angle"),
            ("geometry_tools/hyperbolic.py", "Polygon.regular_polygon"),
            ("geometry_tools/hyperbolic.py", "sl2_iso"),
-           ("geometry_tools/coxeter.py", "CoxeterGroup.bilinear_form")]
+           ("geometry_tools/coxeter.py", "CoxeterGroup.bilinear_form"),
+           ("geometry_tools/hyperbolic.py", "Horosphere.intersect_geodesic"),
+           ("geometry_tools/hyperbolic.py", "HorosphereArc.circle_parameters"),
+           ("geometry_tools/hyperbolic.py", "BoundaryArc._build_orientation_point"),
+           ("geometry_tools/hyperbolic.py", "BoundaryArc.endpoint_coords"),
+           ("geometry_tools/hyperbolic.py", "Subspace._data_with_dual"),
+           ("geometry_tools/hyperbolic.py", "Subspace.reflection_across"),
+           ("geometry_tools/hyperbolic.py", "Hyperplane._compute_ideal_basis"),
+           ("geometry_tools/hyperbolic.py", "spacelike_to"),
+           ("geometry_tools/projective.py", "hyperplane_coordinate_transform"),
+           ("geometry_tools/projective.py", "Subspace.intersect"),
+           ("geometry_tools/utils/core.py", "find_definite_isometry")]
 REQUIRED = [
     ("geometry_tools/utils/core.py", "check_type", "if not types.is_linalg_type(like):"),
 ]
@@ -883,6 +910,693 @@ def wl_rescaling_ideal(run, rng, idx):
         run.sample({"dimension": d, "pattern": pattern, "Q_ideal": Q0, "lambda_Q": lq})
 
 
+# ---------------------------------------------------------------------------
+# rescaling of the points that *objects* are built from (horospheres and their
+# arcs, boundary arcs, geodesics, subspaces, hyperplanes / dual points, tangent
+# vectors, projective pairs / polygons / subspaces / chart normals)
+
+def object_factors(rng, shape, m, j):
+    """factors of shape `shape + (m, 1)` for an object built from m points per
+    unit: magnitudes log-uniform in [0.1, 10]; the signs of the m points of the
+    first unit run through all 2^m sign vectors with the case counter j
+    (j = 0: all positive, 2^m - 1: all negative, the rest: opposite signs
+    inside one object), the other units of a composite get random signs.
+    Returns (factors, pattern label)."""
+    shape = tuple(shape)
+    mag = np.exp(rng.uniform(np.log(0.1), np.log(10), size=shape + (m, 1)))
+    sgn = rng.choice([-1.0, 1.0], size=shape + (m, 1))
+    first = sgn.reshape(-1, m, 1)[0]
+    first[:, 0] = [(-1.0 if (j >> i) & 1 else 1.0) for i in range(m)]
+    if np.all(sgn > 0):
+        pattern = "positive"
+    elif np.all(sgn < 0):
+        pattern = "negative"
+    else:
+        pattern = "mixed"
+    return mag * sgn, pattern
+
+
+def unordered_gap(e0, e1):
+    """max deviation between two (..., 2, n) arrays of point pairs, the order
+    inside each pair being free."""
+    e0 = np.asarray(e0, dtype=float)
+    e1 = np.asarray(e1, dtype=float)
+    direct = np.max(np.abs(e0 - e1), axis=(-1, -2))
+    swapped = np.max(np.abs(e0 - e1[..., ::-1, :]), axis=(-1, -2))
+    return float(np.max(np.minimum(direct, swapped)))
+
+
+def rel_gap(a, b):
+    a = np.asarray(a, dtype=float)
+    b = np.asarray(b, dtype=float)
+    with np.errstate(all="ignore"):
+        return float(np.max(np.abs(a - b) / (1 + np.abs(a))))
+
+
+def row_images(T, V):
+    """Klein coordinates of the images of the homogeneous row vectors V
+    (..., m, n+1) under the isometry object T (proj_data acts on row vectors)."""
+    return rh.proj_to_klein(np.asarray(V, dtype=float) @ np.asarray(T.proj_data, dtype=float))
+
+
+def spacelike_normal(rng, d, shape, n0min=0.05):
+    """normal (k.u, u) of the hyperplane through the interior Klein point k
+    with Euclidean unit normal direction u; |n0| >= n0min keeps its Poincare
+    sphere finite (the hyperplane does not pass through the origin)."""
+    while True:
+        kx = rh.rand_ball(rng, d, shape, rmax=0.8)
+        u = rh.rand_sphere(rng, d, shape)
+        n0 = np.sum(kx * u, axis=-1, keepdims=True)
+        if np.all(np.abs(n0) >= n0min):
+            return np.concatenate([n0, u], axis=-1)
+
+
+def well_spread(kE, smin=0.15):
+    """ideal points (..., k, n) whose homogeneous vectors are well conditioned
+    as a spanning set and whose span stays away from the origin."""
+    E = rh.klein_to_proj(kE)
+    s = np.linalg.svd(E, compute_uv=False)
+    if np.min(s[..., -1] / s[..., 0]) < smin:
+        return False
+    return bool(np.min(rr.span_m2(kE)) > 0.02)
+
+
+# Input classes on which the pinned tree violated the property when
+# `rescaling-objects` was written (witnesses and repairs in
+# /verif/findings/C12-*; repaired in /repo as F47 / F48).  They keep their own
+# workload `rescaling-open-findings` (the name the witness replays refer to).
+#  * C12-subspace-dual-raw-barycentre (F48, repo 3b500bd): Subspace._data_with_dual
+#    started its Gram-Schmidt chain at the barycentre of the *raw*
+#    representatives of the ideal basis; for k >= 3 points with factors of both
+#    signs that vector can be lightlike or Minkowski-orthogonal to a basis
+#    vector, and spacelike_complement / reflection_across lost all accuracy
+#    (LinAlgError at worst).
+#  * C12-boundary-arc-antipodal (F47, repo 5691274): for antipodal endpoints (the
+#    chord passes through the origin) BoundaryArc._build_orientation_point
+#    replaced the orientation point but still took the sign from the old,
+#    vanishing determinant: which half circle came out depended on rounding,
+#    i.e. on the representatives (positive factors included).
+
+OBJECT_FAMILIES = ["horosphere-intersect", "horosphere-arc", "boundary-arc", "geodesic",
+                   "subspace", "hyperplane", "projective", "tangent"]
+
+
+def wl_rescaling_objects(run, rng, idx):
+    """every public entry point that takes points / ideal points / normals (or
+    objects built from them) and is not driven by `rescaling` / `rescaling-ideal`,
+    under independent per-point factors of both signs; judged on geometric
+    outputs against a numpy reference computed from Klein coordinates (which
+    never sees the representatives) and against the unscaled call.
+
+    Seeded changes of this class: C12-r4-1 (Horosphere.intersect_geodesic took
+    the barycentre of the two raw representatives as a point of the geodesic:
+    wrong for factors of opposite sign), C12-r4-2 (BoundaryArc decided the sign
+    of its orientation point from Kleinian representatives but read the
+    orientation off the raw data: complementary arc when exactly one endpoint
+    has a negative factor), C12-r4-3 (find_definite_isometry /
+    hyperplane_coordinate_transform completed the frame independently of the
+    sign of the given normal: a different projective map for n and -n)."""
+    _run_object_family(run, rng, OBJECT_FAMILIES[idx % len(OBJECT_FAMILIES)],
+                       idx // len(OBJECT_FAMILIES), sample=idx < len(OBJECT_FAMILIES))
+
+
+class _FirstFailure(Exception):
+    pass
+
+
+def _run_object_family(run, rng, fam, j, sample=False, first_failure_only=False):
+    mon = run.monitor("rescaling")
+    state = {"pattern": "positive", "case": {}, "sig": ()}
+
+    def judge(op, err, tol=1e-7):
+        run.note_class("rescale-object:" + op, *state["sig"])
+        ok = mon.judge(err, tol, "rescaling/object/%s/%s" % (op.replace(" ", "-"), state["pattern"]),
+                       "%s changes under per-point rescaling of its input (%s factors)"
+                       % (op, state["pattern"]), state["case"])
+        if not ok and first_failure_only:
+            raise _FirstFailure()
+        return ok
+
+    def begin(case, pattern, *sig):
+        case = dict(case)
+        case["family"] = fam
+        case["pattern"] = pattern
+        state["case"] = case
+        state["pattern"] = pattern
+        state["sig"] = (fam,) + sig + (pattern,)
+        run.current_case = case
+
+    try:
+        globals()["_object_" + fam.replace("-", "_")](run, rng, j, mon, judge, begin)
+    except _FirstFailure:
+        pass
+    if sample:
+        run.sample(state["case"])
+
+
+def wl_rescaling_open_findings(run, rng, idx):
+    """the input classes of the two repaired findings described above
+    OBJECT_FAMILIES: factors solved for so that the raw barycentre of an ideal
+    basis is lightlike / orthogonal to the second basis vector; half-circle
+    boundary arcs (alone and mixed with ordinary arcs in one composite)."""
+    fams = ["subspace-raw-barycentre-orthogonal", "subspace-raw-barycentre-lightlike",
+            "boundary-arc-antipodal"]
+    # (one key per case: the first output that is wrong)
+    _run_object_family(run, rng, fams[idx % 3], idx // 3, sample=idx < 3, first_failure_only=True)
+
+
+def _object_subspace_raw_barycentre_orthogonal(run, rng, j, mon, judge, begin):
+    _object_subspace(run, rng, j, mon, judge, begin, adversarial="orthogonal")
+
+
+def _object_subspace_raw_barycentre_lightlike(run, rng, j, mon, judge, begin):
+    _object_subspace(run, rng, j, mon, judge, begin, adversarial="lightlike")
+
+
+def _object_boundary_arc_antipodal(run, rng, j, mon, judge, begin):
+    _object_boundary_arc(run, rng, j, mon, judge, begin, antipodal=True)
+
+
+def _object_horosphere_intersect(run, rng, j, mon, judge, begin):
+    from geometry_tools.hyperbolic import Point, Segment, Horosphere
+    d = 2 + int(rng.integers(0, 3))
+    for _ in range(50):
+        kc = rh.rand_sphere(rng, d)
+        kref, kp, kq = (rh.rand_ball(rng, d, (), rmax=0.9) for _ in range(3))
+        ref, rel = rr.horosphere_geodesic(kc, kref, kp, kq)
+        # transverse intersection (two distinct points), separated defining points
+        if rel > 0.05 and np.linalg.norm(kp - kq) > 0.1:
+            break
+    else:
+        return mon.skip("no transverse horosphere/geodesic configuration drawn")
+    lam, pattern = object_factors(rng, (), 4, j)
+    C, R, P, Q = (rh.klein_to_proj(k) for k in (kc, kref, kp, kq))
+    form = ("points", "segment", "arrays")[j % 3]
+    begin({"dimension": d, "centre": C, "reference": R, "P": P, "Q": Q, "factors": lam,
+           "call": form}, pattern, d, form)
+
+    def call(h, a, b):
+        if form == "points":
+            return h.intersect_geodesic(Point(a.copy()), Point(b.copy()))
+        if form == "segment":
+            return h.intersect_geodesic(Segment(Point(a.copy()), Point(b.copy())))
+        return h.intersect_geodesic(a.copy(), b.copy())
+    h0 = Horosphere(Point(C.copy()), Point(R.copy()))
+    h1 = Horosphere(Point(C * lam[0]), Point(R * lam[1]))
+    x0 = klein_of(call(h0, P, Q))
+    x1 = klein_of(call(h1, P * lam[2], Q * lam[3]))
+    # the library goes through Poincare coordinates of ideal points
+    # (sqrt(|1 - |k|^2|): ~1e-8, amplified by 1/sqrt(discriminant))
+    judge("Horosphere.intersect_geodesic(vs reference)", unordered_gap(ref, x1), 1e-5)
+    judge("Horosphere.intersect_geodesic(vs unscaled)", unordered_gap(x0, x1), 1e-5)
+    judge("Horosphere.center_coords", float(np.max(np.abs(np.asarray(h1.center_coords("klein")) - kc))), 1e-9)
+    judge("Horosphere.ref_coords", float(np.max(np.abs(np.asarray(h1.ref_coords("klein")) - kref))), 1e-9)
+
+
+def _arc_excluding(t1, t2, tc):
+    """(begin, end) of the counterclockwise arc between the angles t1, t2 that
+    does not contain the angle tc."""
+    two_pi = 2 * np.pi
+    inside = np.mod(tc - t1, two_pi) < np.mod(t2 - t1, two_pi)
+    return np.stack([np.where(inside, t2, t1), np.where(inside, t1, t2)], axis=-1)
+
+
+def _object_horosphere_arc(run, rng, j, mon, judge, begin):
+    from geometry_tools.hyperbolic import Point, HorosphereArc
+    shape = [(), (3,)][int(rng.integers(0, 2))]
+    for _ in range(50):
+        kc = rh.rand_sphere(rng, 2, shape)
+        kp1 = rh.rand_ball(rng, 2, shape, rmax=0.85)
+        kq = rh.rand_ball(rng, 2, shape, rmax=0.85)
+        kp2 = rr.on_same_horosphere(kc, kp1, kq)
+        cref, rref = rr.horosphere_poincare(kc, kp1)
+        xp = rh.klein_to_poincare(np.stack([kp1, kp2], axis=-2))
+        if (np.all(np.linalg.norm(kp2, axis=-1) < 0.97) and np.all(rref > 0.05)
+                and np.all(np.linalg.norm(xp[..., 0, :] - xp[..., 1, :], axis=-1) > 0.1 * rref)):
+            break
+    else:
+        return mon.skip("no well-separated horocyclic arc drawn")
+    lam, pattern = object_factors(rng, shape, 3, j)
+    C, P1, P2 = (rh.klein_to_proj(k) for k in (kc, kp1, kp2))
+    stacked = bool(rng.integers(0, 2))
+    begin({"shape": list(shape), "centre": C, "P1": P1, "P2": P2, "factors": lam,
+           "call": "one array" if stacked else "three points"}, pattern, shape,
+          "stacked" if stacked else "separate")
+
+    def build(c, a, b):
+        if stacked:
+            return HorosphereArc(np.stack([c, a, b], axis=-2))
+        return HorosphereArc(Point(c.copy()), Point(a.copy()), Point(b.copy()))
+    a0 = build(C, P1, P2)
+    a1 = build(C * lam[..., 0, :], P1 * lam[..., 1, :], P2 * lam[..., 2, :])
+    judge("HorosphereArc.endpoint_coords",
+          float(np.max(np.abs(np.asarray(a1.endpoint_coords("klein")) - np.stack([kp1, kp2], axis=-2)))), 1e-9)
+    judge("HorosphereArc.center_coords", float(np.max(np.abs(np.asarray(a1.center_coords("klein")) - kc))), 1e-9)
+    c0, r0, t0 = (np.asarray(x, dtype=float) for x in a0.circle_parameters(model="poincare", degrees=False))
+    c1, r1, t1 = (np.asarray(x, dtype=float) for x in a1.circle_parameters(model="poincare", degrees=False))
+    judge("HorosphereArc.circle-centre(vs reference)", float(np.max(np.abs(c1 - cref))), 1e-6)
+    judge("HorosphereArc.circle-radius(vs reference)", float(np.max(np.abs(r1 - rref) / rref)), 1e-5)
+    ang = np.arctan2(xp[..., 1] - cref[..., None, 1], xp[..., 0] - cref[..., None, 0])
+    tref = _arc_excluding(ang[..., 0], ang[..., 1], np.arctan2(kc[..., 1], kc[..., 0]))
+    judge("HorosphereArc.circle-angles(vs reference)", rr.angle_gap(t1, tref), 1e-5)
+    judge("HorosphereArc.circle-angles(vs unscaled)", rr.angle_gap(t1, t0), 1e-5)
+    judge("HorosphereArc.circle-centre(vs unscaled)", float(np.max(np.abs(c1 - c0))), 1e-6)
+    td = np.asarray(a1.circle_parameters(model="poincare", degrees=True)[2], dtype=float)
+    judge("HorosphereArc.circle-angles(degrees)", rr.angle_gap(np.radians(td), tref), 1e-5)
+    if rh.away_from_infinity(np.concatenate([kc[..., None, :], kp1[..., None, :], kp2[..., None, :]], axis=-2), 0.3):
+        h0 = a0.circle_parameters(model="halfspace", degrees=False)
+        h1 = a1.circle_parameters(model="halfspace", degrees=False)
+        rad = np.asarray(h0[1], dtype=float)
+        if np.all(np.isfinite(rad)) and np.all(rad < 50) and np.all(rad > 0.02):
+            judge("HorosphereArc.circle-centre:halfspace", rel_gap(h0[0], h1[0]), 1e-6)
+            judge("HorosphereArc.circle-radius:halfspace", rel_gap(h0[1], h1[1]), 1e-6)
+            judge("HorosphereArc.circle-angles:halfspace", rr.angle_gap(h0[2], h1[2]), 1e-5)
+
+
+def _object_boundary_arc(run, rng, j, mon, judge, begin, antipodal=False):
+    from geometry_tools.hyperbolic import Point, BoundaryArc
+    # (composite boundary arcs can be constructed since repo d559408, F46)
+    shape = [(), (3,), (), (2, 2)][int(rng.integers(0, 4))]
+    exact = rng.random() < 0.3 and not antipodal
+    if exact:
+        # exactly lightlike integer vectors
+        nulls = np.array(EXACT_NULL[2], dtype=float)
+        for _ in range(200):
+            E1 = nulls[rng.integers(0, len(nulls), size=shape)]
+            E2 = nulls[rng.integers(0, len(nulls), size=shape)]
+            a1 = np.arctan2(E1[..., 2], E1[..., 1])
+            a2 = np.arctan2(E2[..., 2], E2[..., 1])
+            gap = np.mod(a2 - a1, 2 * math.pi)
+            if np.all(np.minimum(gap, 2 * math.pi - gap) > 0.2) and np.all(np.abs(gap - math.pi) > 0.2):
+                break
+        else:
+            return mon.skip("coincident or antipodal exact endpoints")
+    else:
+        a1 = rng.uniform(-math.pi, math.pi, size=shape)
+        gap = rng.uniform(0.3, math.pi - 0.3, size=shape) + math.pi * rng.integers(0, 2, size=shape)
+        if antipodal:
+            # half circles (the chord passes through the origin; repaired
+            # finding F47 / C12-boundary-arc-antipodal): every unit, or -- in a
+            # composite -- only some of the units
+            half = np.ones(shape, dtype=bool)
+            if shape and rng.random() < 0.5:
+                half = rng.random(size=shape) < 0.5
+                half.flat[0] = True
+            gap = np.where(half, math.pi, gap)
+        a2 = a1 + gap
+        E1 = np.stack([np.ones(shape), np.cos(a1), np.sin(a1)], axis=-1)
+        E2 = np.stack([np.ones(shape), np.cos(a2), np.sin(a2)], axis=-1)
+    lam, pattern = object_factors(rng, shape, 2, j)
+    form = ("arrays", "points", "one array")[int(rng.integers(0, 3))]
+    if antipodal:
+        pattern = "antipodal"
+    begin({"shape": list(shape), "E1": E1, "E2": E2, "factors": lam, "call": form, "exact_null": exact},
+          pattern, shape, form, "antipodal" if antipodal else "exact" if exact else "from-angle")
+
+    def build(u, v):
+        if form == "arrays":
+            return BoundaryArc(u.copy(), v.copy())
+        if form == "points":
+            return BoundaryArc(Point(u.copy()), Point(v.copy()))
+        return BoundaryArc(np.stack([u, v], axis=-2))
+    kends = np.stack([E1[..., 1:] / E1[..., :1], E2[..., 1:] / E2[..., :1]], axis=-2)
+    aref = np.stack([a1, a2], axis=-1)
+    arc = build(E1 * lam[..., 0, :], E2 * lam[..., 1, :])
+    # a boundary arc is the counterclockwise arc from its first to its second endpoint
+    judge("BoundaryArc.endpoint_coords:klein",
+          float(np.max(np.abs(np.asarray(arc.endpoint_coords("klein")) - kends))), 1e-9)
+    judge("BoundaryArc.endpoint_coords:poincare",
+          float(np.max(np.abs(np.asarray(arc.endpoint_coords("poincare")) - kends))), 1e-6)
+    for model in ("klein", "poincare"):
+        c, r, th = arc.circle_parameters(model=model, degrees=False)
+        judge("BoundaryArc.circle-angles:" + model, rr.angle_gap(th, aref), 1e-6)
+        judge("BoundaryArc.circle:" + model,
+              float(max(np.max(np.abs(np.asarray(c, dtype=float))), np.max(np.abs(np.asarray(r, dtype=float) - 1)))), 1e-9)
+    th = arc.circle_parameters(model="klein", degrees=True)[2]
+    judge("BoundaryArc.circle-angles(degrees)", rr.angle_gap(np.radians(np.asarray(th, dtype=float)), aref), 1e-6)
+    judge("BoundaryArc.ideal_basis_coords",
+          float(np.max(np.abs(np.asarray(arc.ideal_basis_coords("klein")) - kends))), 1e-9)
+    # history: flipping the orientation gives the complementary arc, whatever
+    # the representatives were
+    arc.flip_orientation()
+    th = arc.circle_parameters(model="klein", degrees=False)[2]
+    judge("BoundaryArc.flip_orientation->circle-angles", rr.angle_gap(th, aref[..., ::-1]), 1e-6)
+    judge("BoundaryArc.flip_orientation->endpoint_coords",
+          float(np.max(np.abs(np.asarray(arc.endpoint_coords("klein")) - kends[..., ::-1, :]))), 1e-9)
+
+
+def _reflection_checks(judge, op, S1, S0, nrm, rng, d, shape):
+    """reflection across a hyperplane-like object, as a projective map: images
+    of d + 3 random interior points against the numpy reflection."""
+    V = rh.klein_to_proj(rh.rand_ball(rng, d, tuple(shape) + (d + 3,), rmax=0.9))
+    ref = rh.proj_to_klein(rr.reflect(nrm, V))
+    R1 = S1.reflection_across()
+    judge(op + ".reflection_across(vs reference)", float(np.max(np.abs(row_images(R1, V) - ref))), 1e-7)
+    if S0 is not None:
+        judge(op + ".reflection_across(vs unscaled)",
+              float(np.max(np.abs(row_images(R1, V) - row_images(S0.reflection_across(), V)))), 1e-7)
+    return R1
+
+
+def _halfspace_sphere_checks(judge, op, S0, S1, kpts, boundary):
+    """half-space sphere parameters against the unscaled object (no independent
+    reference: the chart convention is the library's), away from the chart's
+    point at infinity."""
+    if not rh.away_from_infinity(kpts, 0.3):
+        return
+    with np.errstate(all="ignore"):
+        c0, r0 = S0.sphere_parameters("halfspace")
+        c1, r1 = S1.sphere_parameters("halfspace")
+    r0 = np.asarray(r0, dtype=float)
+    # (half-space coordinates of ideal points carry the ~1e-8 error of
+    # sqrt(|1 - |k|^2|); the circumcentre amplifies it by ~r^2: nearly flat
+    # spheres are left out)
+    if np.all(np.isfinite(r0)) and np.all(r0 < 5):
+        judge(op + ".sphere-centre:halfspace", rel_gap(c0, c1), 3e-5)
+        judge(op + ".sphere-radius:halfspace", rel_gap(r0, r1), 3e-5)
+        if boundary:
+            with np.errstate(all="ignore"):
+                b0 = S0.boundary_sphere_parameters()
+                b1 = S1.boundary_sphere_parameters()
+            if np.all(np.isfinite(np.asarray(b0[1], dtype=float))) and np.all(np.asarray(b0[1], dtype=float) < 5):
+                judge(op + ".boundary_sphere_parameters(centre)", rel_gap(b0[0], b1[0]), 3e-5)
+                judge(op + ".boundary_sphere_parameters(radius)", rel_gap(b0[1], b1[1]), 3e-5)
+
+
+def _object_geodesic(run, rng, j, mon, judge, begin):
+    from geometry_tools.hyperbolic import Point, Geodesic, Segment, PointPair, Isometry
+    d = 2 if rng.random() < 0.5 else int(rng.integers(3, 5))
+    shape = [(), (3,), (), (2, 2)][int(rng.integers(0, 4))]
+    for _ in range(50):
+        kE = rh.rand_sphere(rng, d, shape + (2,))
+        kp = rh.rand_ball(rng, d, shape, rmax=0.9)
+        kq = rh.rand_ball(rng, d, shape, rmax=0.9)
+        if (np.all(np.linalg.norm(kE[..., 0, :] - kE[..., 1, :], axis=-1) > 0.3)
+                and np.all(rr.span_m2(kE) > 0.02)
+                and np.all(np.linalg.norm(kp - kq, axis=-1) > 0.1)
+                and np.all(rr.span_m2(rr.chord_ends(kp, kq)) > 0.02)):
+            break
+    else:
+        return mon.skip("no well-conditioned geodesic drawn")
+    lam, pattern = object_factors(rng, shape, 4, j)
+    E = rh.klein_to_proj(kE)
+    P, Q = rh.klein_to_proj(kp), rh.klein_to_proj(kq)
+    stacked = bool(rng.integers(0, 2))
+    begin({"dimension": d, "shape": list(shape), "ideal_endpoints": E, "P": P, "Q": Q,
+           "factors": lam, "call": "one array" if stacked else "two points"},
+          pattern, d, shape, "stacked" if stacked else "separate")
+    E1 = E * lam[..., :2, :]
+    if stacked:
+        g0, g1 = Geodesic(E.copy()), Geodesic(E1.copy())
+    else:
+        g0 = Geodesic(Point(E[..., 0, :].copy()), Point(E[..., 1, :].copy()))
+        g1 = Geodesic(Point(E1[..., 0, :].copy()), Point(E1[..., 1, :].copy()))
+    judge("Geodesic.ideal_basis_coords", float(np.max(np.abs(np.asarray(g1.ideal_basis_coords("klein")) - kE))), 1e-9)
+    judge("Geodesic.endpoint_coords", float(np.max(np.abs(np.asarray(g1.endpoint_coords("klein")) - kE))), 1e-9)
+    cref, rref = rr.span_poincare(kE)
+    c1, r1 = (np.asarray(x, dtype=float) for x in g1.sphere_parameters("poincare"))
+    c0, r0 = (np.asarray(x, dtype=float) for x in g0.sphere_parameters("poincare"))
+    if np.all(rref < 50):
+        judge("Geodesic.sphere-centre:poincare(vs reference)", rel_gap(cref, c1), 1e-6)
+        judge("Geodesic.sphere-radius:poincare(vs reference)", float(np.max(np.abs(r1 - rref) / rref)), 1e-6)
+        judge("Geodesic.sphere-centre:poincare(vs unscaled)", rel_gap(c0, c1), 1e-7)
+    _halfspace_sphere_checks(judge, "Geodesic", g0, g1, kE, boundary=(d == 2))
+    if d == 2:
+        if np.all(rref < 50):
+            for model in ("poincare", "halfspace"):
+                if model == "halfspace" and not rh.away_from_infinity(kE, 0.3):
+                    continue
+                with np.errstate(all="ignore"):
+                    p0 = g0.circle_parameters(degrees=False, model=model)
+                    p1 = g1.circle_parameters(degrees=False, model=model)
+                rad = np.asarray(p0[1], dtype=float)
+                if np.all(np.isfinite(rad)) and np.all(rad < 50):
+                    judge("Geodesic.circle-centre:" + model, rel_gap(p0[0], p1[0]), 1e-5)
+                    judge("Geodesic.circle-radius:" + model, rel_gap(p0[1], p1[1]), 1e-5)
+                    dth = np.abs(np.angle(np.exp(1j * (np.asarray(p0[2], dtype=float) - np.asarray(p1[2], dtype=float)))))
+                    judge("Geodesic.circle-angles:" + model,
+                          float(np.max(dth * np.minimum(rad, 1e3)[..., None])), 1e-5)
+        nrm = rr.minkowski_normal(E)
+        _reflection_checks(judge, "Geodesic", g1, g0, nrm, rng, d, shape)
+        judge("Geodesic.spacelike_complement",
+              rr.proj_defect(np.asarray(g1.spacelike_complement().proj_data, dtype=float), nrm), 1e-7)
+    # image of the geodesic under an isometry
+    A = rh.rand_isometry(rng, d)
+    T = Isometry(A, column_vectors=True)
+    kimg = rh.proj_to_klein(E @ A.T)
+    judge("Isometry@Geodesic->ideal_basis_coords",
+          float(np.max(np.abs(np.asarray((T @ g1).ideal_basis_coords("klein"), dtype=float) - kimg))), 1e-7)
+    # the geodesic spanned by a segment between interior points, and what is
+    # derived from it
+    P1, Q1 = P * lam[..., 2, :], Q * lam[..., 3, :]
+    if stacked:
+        s0 = Segment(np.stack([P, Q], axis=-2))
+        s1 = Segment(np.stack([P1, Q1], axis=-2))
+        pair = PointPair(np.stack([P1, Q1], axis=-2))
+    else:
+        s0 = Segment(Point(P.copy()), Point(Q.copy()))
+        s1 = Segment(Point(P1.copy()), Point(Q1.copy()))
+        pair = PointPair(Point(P1.copy()), Point(Q1.copy()))
+    kpq = np.stack([kp, kq], axis=-2)
+    judge("PointPair.endpoint_coords:klein",
+          float(np.max(np.abs(np.asarray(pair.endpoint_coords("klein"), dtype=float) - kpq))), 1e-9)
+    judge("PointPair.endpoint_coords:poincare",
+          float(np.max(np.abs(np.asarray(pair.endpoint_coords("poincare"), dtype=float) - rh.klein_to_poincare(kpq)))), 1e-9)
+    ea, eb = pair.get_end_pair(as_points=True)
+    judge("PointPair.get_end_pair", float(max(np.max(np.abs(klein_of(ea) - kp)), np.max(np.abs(klein_of(eb) - kq)))), 1e-9)
+    judge("Segment.endpoint_coords", float(np.max(np.abs(np.asarray(s1.endpoint_coords("klein"), dtype=float) - kpq))), 1e-9)
+    ends = rr.chord_ends(kp, kq)
+    judge("Segment.geodesic->ideal_basis_coords(vs reference)",
+          unordered_gap(ends, np.asarray(s1.geodesic().ideal_basis_coords("klein"))), 1e-6)
+    cref, rref = rr.span_poincare(ends)
+    c1, r1 = (np.asarray(x, dtype=float) for x in s1.sphere_parameters("poincare"))
+    if np.all(rref < 50):
+        judge("Segment.sphere-centre:poincare(vs reference)", rel_gap(cref, c1), 1e-5)
+        judge("Segment.sphere-radius:poincare(vs reference)", float(np.max(np.abs(r1 - rref) / rref)), 1e-5)
+    if d == 2:
+        nrm = rr.minkowski_normal(np.stack([P, Q], axis=-2))
+        _reflection_checks(judge, "Segment", s1, s0, nrm, rng, d, shape)
+        judge("Segment.spacelike_complement",
+              rr.proj_defect(np.asarray(s1.spacelike_complement().proj_data, dtype=float), nrm), 1e-6)
+
+
+def _object_subspace(run, rng, j, mon, judge, begin, adversarial=None):
+    from geometry_tools.hyperbolic import Subspace
+    d = int(rng.integers(3, 5))
+    k = d if (rng.random() < 0.5 or adversarial) else int(rng.integers(2, d))
+    shape = [(), (3,)][int(rng.integers(0, 2))]
+    for _ in range(200):
+        kE = rh.rand_sphere(rng, d, shape + (k,))
+        if well_spread(kE):
+            break
+    else:
+        return mon.skip("no well-conditioned ideal basis drawn")
+    lam, pattern = object_factors(rng, shape, k, j)
+    E = rh.klein_to_proj(kE)
+    if adversarial:
+        # repaired finding F48 / C12-subspace-dual-raw-barycentre: factors (inside
+        # +-[0.1, 10]) for which the raw barycentre b of the representatives
+        # is Minkowski-orthogonal to the second basis vector, or lightlike
+        G = rh.mink(E[..., :, None, :], E[..., None, :, :])
+        lam = np.abs(lam)
+        lam[..., 2:, :] = np.clip(lam[..., 2:, :], 0.5, 2.0)
+        if adversarial == "orthogonal":    # <e_2, b> = 0, solved for the first factor
+            rest = np.sum(lam[..., 2:, 0] * G[..., 1, 2:], axis=-1)
+            lam[..., 0, 0] = -rest / G[..., 1, 0]
+        else:                              # <b, b> = 0, solved for the first factor
+            l = lam[..., 1:, 0]
+            quad = 0.5 * (np.einsum("...i,...ij,...j->...", l, G[..., 1:, 1:], l))
+            lin = np.sum(l * G[..., 0, 1:], axis=-1)
+            lam[..., 0, 0] = -quad / lin
+        if not np.all((np.abs(lam) >= 0.1) & (np.abs(lam) <= 10)):
+            return mon.skip("adversarial factors outside +-[0.1, 10]")
+        pattern = "raw-barycentre-" + adversarial
+    begin({"dimension": d, "rank": k, "shape": list(shape), "ideal_basis": E, "factors": lam},
+          pattern, d, k, shape)
+    S0, S1 = Subspace(E.copy()), Subspace((E * lam).copy())
+    judge("Subspace.ideal_basis_coords", float(np.max(np.abs(np.asarray(S1.ideal_basis_coords("klein")) - kE))), 1e-9)
+    cref, rref = rr.span_poincare(kE)
+    c1, r1 = (np.asarray(x, dtype=float) for x in S1.sphere_parameters("poincare"))
+    c0, r0 = (np.asarray(x, dtype=float) for x in S0.sphere_parameters("poincare"))
+    judge("Subspace.sphere-centre:poincare(vs reference)", rel_gap(cref, c1), 1e-6)
+    judge("Subspace.sphere-radius:poincare(vs reference)", float(np.max(np.abs(r1 - rref) / rref)), 1e-6)
+    judge("Subspace.sphere-centre:poincare(vs unscaled)", rel_gap(c0, c1), 1e-7)
+    _halfspace_sphere_checks(judge, "Subspace", S0, S1, kE, boundary=(k == d))
+    if k == d:
+        nrm = rr.minkowski_normal(E)
+        _reflection_checks(judge, "Subspace", S1, S0, nrm, rng, d, shape)
+        judge("Subspace.spacelike_complement",
+              rr.proj_defect(np.asarray(S1.spacelike_complement().proj_data, dtype=float), nrm), 1e-7)
+
+
+def _object_hyperplane(run, rng, j, mon, judge, begin):
+    from geometry_tools import hyperbolic
+    from geometry_tools.hyperbolic import Hyperplane, DualPoint
+    d = int(rng.integers(2, 5))
+    # composite normals have shape (k, 1, n+1) (one normal per unit)
+    shape = [(), (3, 1)][int(rng.integers(0, 2))]
+    nrm = spacelike_normal(rng, d, shape)
+    lam, pattern = object_factors(rng, shape, 1, j)
+    lam = lam[..., 0, :]
+    begin({"dimension": d, "shape": list(shape), "normal": nrm, "factors": lam}, pattern, d, shape)
+    flat = nrm.reshape(nrm.shape[:-2] + (d + 1,)) if shape else nrm
+    H0, H1 = Hyperplane(nrm.copy()), Hyperplane((nrm * lam).copy())
+    judge("Hyperplane.spacelike_vector",
+          rr.proj_defect(np.asarray(H1.spacelike_vector, dtype=float), flat), 1e-9)
+    ib = np.asarray(H1.ideal_basis_coords("klein"), dtype=float)
+    # the ideal basis is not unique: judged as d independent ideal points of the hyperplane
+    on_plane = np.abs(np.sum(ib * flat[..., None, 1:], axis=-1) - flat[..., :1])
+    judge("Hyperplane.ideal_basis(on the hyperplane)", float(np.max(on_plane)), 1e-7)
+    judge("Hyperplane.ideal_basis(ideal)", float(np.max(np.abs(np.sum(ib * ib, axis=-1) - 1))), 1e-7)
+    cref, rref = rr.hyperplane_poincare(flat)
+    c1, r1 = (np.asarray(x, dtype=float) for x in H1.sphere_parameters("poincare"))
+    if np.all(rref < 50):
+        judge("Hyperplane.sphere-centre:poincare(vs reference)", rel_gap(cref, c1), 1e-6)
+        judge("Hyperplane.sphere-radius:poincare(vs reference)", float(np.max(np.abs(r1 - rref) / rref)), 1e-6)
+    _halfspace_sphere_checks(judge, "Hyperplane", H0, H1, np.asarray(H0.ideal_basis_coords("klein"), dtype=float),
+                             boundary=True)
+    R1 = _reflection_checks(judge, "Hyperplane", H1, H0, flat, rng, d, flat.shape[:-1])
+    back = Hyperplane.from_reflection(R1)
+    judge("Hyperplane.from_reflection(reflection_across)",
+          rr.proj_defect(np.asarray(back.spacelike_vector, dtype=float).reshape(flat.shape), flat), 1e-7)
+    dp = DualPoint((nrm * lam).copy())
+    judge("DualPoint.coords:klein", rel_gap(flat[..., 1:] / flat[..., :1],
+                                            np.asarray(dp.coords("klein"), dtype=float).reshape(flat[..., 1:].shape)), 1e-9)
+    # spacelike_to: the isometry takes the direction e_1 to the given normal
+    T = hyperbolic.spacelike_to((nrm * lam).copy())
+    e1 = np.zeros(d + 1)
+    e1[1] = 1.0
+    img = e1 @ np.asarray(T.proj_data, dtype=float)
+    judge("spacelike_to(image of e1)", rr.proj_defect(img.reshape(flat.shape), flat), 1e-7)
+    judge("spacelike_to(isometry)", float(np.max(rh.form_residual(np.asarray(T.proj_data, dtype=float)))), 1e-7)
+
+
+def _object_projective(run, rng, j, mon, judge, begin):
+    from geometry_tools import projective, utils
+    n = int(rng.integers(2, 6))
+    nv = rng.normal(size=n)
+    lam, pattern = object_factors(rng, (), 1, j)
+    lam = float(lam[0, 0])
+    begin({"n": n, "normal": nv, "factor": lam}, pattern, n)
+    # chart normal: n and lam * n describe the same hyperplane / affine chart, so
+    # the chart transformation is judged as a projective map (seeded change C12-r4-3)
+    T0 = projective.hyperplane_coordinate_transform(nv.copy())
+    T1 = projective.hyperplane_coordinate_transform(lam * nv)
+    M0 = np.asarray(T0.proj_data, dtype=float)
+    M1 = np.asarray(T1.proj_data, dtype=float)
+    judge("hyperplane_coordinate_transform(projective map)", proj_equal_matrix(M1, M0), 1e-9)
+    pts = rng.normal(size=(n + 2, n))
+    # points whose first chart coordinate stays away from 0 after the transformation
+    pts = pts + np.sign(pts @ nv)[:, None] * nv / np.linalg.norm(nv)
+    a0 = np.asarray((T0 @ projective.Point(pts.copy())).affine_coords(chart_index=0), dtype=float)
+    a1 = np.asarray((T1 @ projective.Point(pts.copy())).affine_coords(chart_index=0), dtype=float)
+    judge("hyperplane_coordinate_transform(affine coordinates of images)", rel_gap(a0, a1), 1e-8)
+    inpl = pts - np.outer(pts @ nv, nv) / (nv @ nv)
+    im = np.asarray((T1 @ projective.Point(inpl)).proj_data, dtype=float)
+    judge("hyperplane_coordinate_transform(hyperplane to x0 = 0)",
+          float(np.max(np.abs(im[:, 0]) / np.linalg.norm(im, axis=-1))), 1e-9)
+    for tag, vec in (("row", nv), ("column", nv.reshape(n, 1)), ("1xn", nv.reshape(1, n))):
+        f0 = np.asarray(utils.find_definite_isometry(np.array(vec)), dtype=float)
+        f1 = np.asarray(utils.find_definite_isometry(lam * np.array(vec)), dtype=float)
+        judge("find_definite_isometry(frame up to a scalar):" + tag, proj_equal_matrix(f1, f0), 1e-9)
+    k = int(rng.integers(2, n + 1))
+    F = rng.normal(size=(k, n))
+    lf, fpat = object_factors(rng, (), k, j)
+    f0 = np.asarray(utils.find_definite_isometry(F.copy()), dtype=float)
+    f1 = np.asarray(utils.find_definite_isometry(F * lf), dtype=float)
+    judge("find_definite_isometry(frame up to a scalar):flag", proj_equal_matrix(f1, f0), 1e-8)
+    # points, pairs, polygons in affine charts
+    i = int(rng.integers(0, n))
+    m = int(rng.integers(3, 7))
+    X = rng.normal(size=(m, n))
+    X[:, i] = rng.uniform(0.5, 2.0, size=m) * rng.choice([-1.0, 1.0], size=m)
+    lx, _ = object_factors(rng, (), m, j)
+    aref = np.delete(X, i, axis=-1) / X[:, i:i + 1]
+    judge("projective.Point.affine_coords",
+          rel_gap(aref, np.asarray(projective.Point((X * lx).copy()).affine_coords(chart_index=i), dtype=float)), 1e-9)
+    judge("projective.affine_coords",
+          rel_gap(aref, np.asarray(projective.affine_coords((X * lx).copy(), chart_index=i), dtype=float)), 1e-9)
+    pair = projective.PointPair(projective.Point((X[0] * lx[0]).copy()), projective.Point((X[1] * lx[1]).copy()))
+    judge("projective.PointPair.endpoint_affine_coords",
+          rel_gap(aref[:2], np.asarray(pair.endpoint_affine_coords(chart_index=i), dtype=float)), 1e-9)
+    poly = projective.Polygon((X * lx).copy())
+    judge("projective.Polygon.get_vertices",
+          rel_gap(aref, np.asarray(poly.get_vertices().affine_coords(chart_index=i), dtype=float)), 1e-9)
+    eref = np.stack([aref, np.roll(aref, -1, axis=0)], axis=-2)
+    judge("projective.Polygon.get_edges",
+          rel_gap(eref, np.asarray(poly.get_edges().endpoint_affine_coords(chart_index=i), dtype=float)), 1e-9)
+    A = rng.normal(size=(n, n)) + 2 * np.eye(n)
+    T = projective.Transformation(A, column_vectors=True)
+    Y = X @ A.T
+    if np.all(np.abs(Y[:, i]) > 0.05 * np.linalg.norm(Y, axis=-1)):
+        yref = np.delete(Y, i, axis=-1) / Y[:, i:i + 1]
+        got = np.asarray((T @ projective.Point((X * lx).copy())).affine_coords(chart_index=i), dtype=float)
+        judge("projective.Transformation.apply", rel_gap(yref, got), 1e-8)
+    # intersection of two subspaces given by rescaled spanning sets: the same subspace
+    if n >= 3:
+        k1 = int(rng.integers(2, n))
+        k2 = int(rng.integers(n - k1 + 1, n))
+        for _ in range(20):
+            A1 = rng.normal(size=(k1, n))
+            A2 = rng.normal(size=(k2, n))
+            s = np.linalg.svd(np.concatenate([A1, A2], axis=0), compute_uv=False)
+            if s[min(n, k1 + k2) - 1] / s[0] > 0.1:
+                break
+        l1, _ = object_factors(rng, (), k1, j)
+        l2, _ = object_factors(rng, (), k2, j >> 1)
+        I0 = projective.Subspace(A1.copy()).intersect(projective.Subspace(A2.copy()))
+        I1 = projective.Subspace((A1 * l1).copy()).intersect(projective.Subspace((A2 * l2).copy()))
+        judge("projective.Subspace.intersect(vs unscaled)",
+              float(np.max(np.abs(rr.row_projector(I0.proj_data) - rr.row_projector(I1.proj_data)))), 1e-7)
+        # reference: the vectors annihilated by both annihilators
+
+        def null_rows(Z):
+            return np.linalg.svd(Z)[2][Z.shape[0]:]
+        ref = null_rows(np.concatenate([null_rows(A1), null_rows(A2)], axis=0))
+        judge("projective.Subspace.intersect(vs reference)",
+              float(np.max(np.abs(rr.row_projector(ref) - rr.row_projector(I1.proj_data)))), 1e-7)
+
+
+def _object_tangent(run, rng, j, mon, judge, begin):
+    from geometry_tools import hyperbolic
+    from geometry_tools.hyperbolic import Point, TangentVector
+    d = int(rng.integers(2, 5))
+    shape = [(), (3,)][int(rng.integers(0, 2))]
+    kp = rh.rand_ball(rng, d, shape, rmax=0.9)
+    P = rh.klein_to_proj(kp)
+    v = rh.tangent_project(P, rng.normal(size=shape + (d + 1,)))
+    w = rh.tangent_project(P, rng.normal(size=shape + (d + 1,)))
+    lam, pattern = object_factors(rng, shape, 1, j)
+    lam = lam[..., 0, :]
+    t = rng.uniform(-2, 2, size=shape)
+    begin({"dimension": d, "shape": list(shape), "P": P, "v": v, "w": w, "factors": lam, "t": t},
+          pattern, d, shape)
+    # a tangent vector is the pair (basepoint, vector): rescaled jointly, it is
+    # the same direction at the same point
+    tv1 = TangentVector(Point((P * lam).copy()), (v * lam).copy())
+    tw1 = TangentVector(Point((P * lam).copy()), (w * lam).copy())
+    judge("TangentVector.point_along(vs reference)",
+          float(np.max(np.abs(klein_of(tv1.normalized().point_along(t)) - rh.exp_map(P, v, t)))), 1e-7)
+    o = Point.get_origin(d, shape)
+    judge("TangentVector.origin_to(image of the origin)",
+          float(np.max(np.abs(klein_of(tv1.origin_to() @ o) - kp))), 1e-8)
+    cref = rh.mink(v, w) / np.sqrt(rh.mink_sq(v) * rh.mink_sq(w))
+    if np.all(np.abs(cref) < 0.999):
+        judge("TangentVector.angle(vs reference)",
+              float(np.max(np.abs(np.cos(np.asarray(tv1.angle(tw1), dtype=float)) - cref))), 1e-7)
+    # module-level helpers on rescaled homogeneous coordinates
+    judge("kleinian_coords", float(np.max(np.abs(np.asarray(hyperbolic.kleinian_coords((P * lam).copy())) - kp))), 1e-9)
+    hp = rh.hyperboloid_pos(P)
+    judge("hyperboloid_coords",
+          float(np.max(np.abs(np.abs(np.asarray(hyperbolic.hyperboloid_coords((P * lam).copy()), dtype=float)) - np.abs(hp))
+                       / (1 + np.abs(hp)))), 1e-9)
+    # timelike_to takes one frame per unit: composites as (k, 1, n+1)
+    Pf = (P * lam)[..., None, :] if shape else P * lam
+    T = hyperbolic.timelike_to(Pf.copy())
+    judge("timelike_to(image of the origin)",
+          float(np.max(np.abs(klein_of(T @ o) - kp))), 1e-8)
+
+
 def wl_docs(run, rng, idx):
     """the documentation's python blocks and examples/*.py, run as programs."""
     from .. import examples
@@ -915,5 +1629,7 @@ WORKLOADS = [
     Workload("packaging-integer-data", wl_packaging_integer_data, quick=25, thorough=250),
     Workload("rescaling", wl_rescaling, quick=240, thorough=6000),
     Workload("rescaling-ideal", wl_rescaling_ideal, quick=90, thorough=1800),
+    Workload("rescaling-objects", wl_rescaling_objects, quick=160, thorough=3200),
+    Workload("rescaling-open-findings", wl_rescaling_open_findings, quick=24, thorough=480),
     Workload("docs", wl_docs, quick=12, thorough=12),
 ]
